@@ -179,14 +179,15 @@ class LaplaceTransformer(UnilateralForwardTransformer):
                 expr.args[1][0] != t):
             self.error('Expecting function of t')
 
-        name = expr.args[0].func.__name__
-        func1 = sym.Function(name[0].upper() + name[1:])
         order = expr.args[1][1]
-        result = func1(s) * s ** order
+        # The differentiated function may have a scaled and shifted
+        # argument, say x(a * t + b); func applies the similarity and
+        # shift theorems.
+        v = expr.args[0]
+        result = self.func(v, t, s) * s ** order
 
         if not zero_initial_conditions:
             # Handle initial conditions.  FIXME  use 0^- for 0.
-            v = sym.Function(name)(t)
             for m in range(order):
                 result -= s**(order - m - 1) * \
                     sym.Derivative(v, t, m).subs(t, 0)
